@@ -10,9 +10,9 @@
 //            copies of the latch future
 //   huge     future episodes whose wait_for timeouts are all close to nanoseconds::max()
 //            (deadline arithmetic; UBSan is the oracle in the asan variant)
-//   all      future + latch (+ huge timeouts mixed in, except in the asan+ubsan variant where a
-//            UBSan abort on the known deadline overflow would mask the rest of the run; the
-//            dedicated `huge` run covers it there)
+//   all      future, then latch, then huge (last: in the asan+ubsan variant the first deadline
+//            overflow aborts the process; future/latch episodes of that variant therefore draw no
+//            timeout whose deadline is unrepresentable, tsan/plain mix them in everywhere)
 //
 // Oracles: see tools/notes/C08.md. All verdicts come from call/return stamps
 // (vf::stamp_call / vf::stamp_ret), counters written with relaxed atomics, plain payload
@@ -198,12 +198,90 @@ struct World {
 };
 World* g_world = nullptr;
 
+// The deadline-overflow finding (DESIGN §6; see tools/notes/C08.md) is recorded but must not end the run: every
+// other kind of violation stops the episode loop.
+::std::atomic<uint32_t> g_fatal {0};
+inline bool stop_now() { return g_fatal.load(::std::memory_order_relaxed) > 0; }
+inline void viol(const ::std::string& key, const ::std::string& msg, const ::std::string& detail = "") {
+  if (key.rfind("wait_for-deadline-overflow", 0) != 0) g_fatal.fetch_add(1, ::std::memory_order_relaxed);
+  vf::violation(key, msg, detail);
+}
+
 inline int64_t mono_ns() {
   struct ::timespec ts;
   ::clock_gettime(CLOCK_MONOTONIC, &ts);
   return int64_t(ts.tv_sec) * 1000000000 + ts.tv_nsec;
 }
 inline int my_logical() { return vf::my_state()->logical.load(::std::memory_order_relaxed); }
+
+////////////////////////////////////////////////////////////////////////////////
+// Persistent worker threads. Thousands of short episodes with up to 13 threads each: creating the threads per
+// episode dominates the run under TSan/ASan (TLS + shadow set-up per pthread_create). The hand-over through a
+// mutex + condvar gives exactly the happens-before edges of create/join (episode start after the previous
+// episode's end) and none inside an episode.
+struct Workers {
+  ::std::mutex mu;
+  ::std::condition_variable cv_start, cv_done;
+  uint64_t gen = 0, seed = 0;
+  int active = 0, done = 0, pin = 0;
+  bool quit = false;
+  ::std::function<void(int)> body;
+  ::std::vector<::std::thread> ts;
+
+  void worker(int i) {
+    uint64_t seen = 0;
+    for (;;) {
+      uint64_t sd;
+      int pn;
+      {
+        ::std::unique_lock<::std::mutex> lk(mu);
+        cv_start.wait(lk, [&] { return quit || (gen != seen && i < active); });
+        if (quit) return;
+        seen = gen;
+        sd = seed;
+        pn = pin;
+      }
+      vf::pin_cpus(pn);  // affinity of this worker for this episode (0 = all CPUs)
+      vf::thread_begin(sd, i);
+      body(i);
+      vf::thread_end();
+      {
+        ::std::lock_guard<::std::mutex> lk(mu);
+        ++done;
+      }
+      cv_done.notify_one();
+    }
+  }
+  template <typename F>
+  void run(int n, uint64_t episode_seed, int pin_cpus, F&& f) {
+    while (int(ts.size()) < n) {
+      int i = int(ts.size());
+      ts.emplace_back([this, i] { worker(i); });
+    }
+    vf::expect_threads(uint64_t(n));
+    ::std::unique_lock<::std::mutex> lk(mu);
+    body = ::std::ref(f);
+    seed = episode_seed;
+    pin = pin_cpus;
+    active = n;
+    done = 0;
+    ++gen;
+    cv_start.notify_all();
+    cv_done.wait(lk, [&] { return done == n; });
+    active = 0;
+    body = nullptr;
+  }
+  void shutdown() {
+    {
+      ::std::lock_guard<::std::mutex> lk(mu);
+      quit = true;
+    }
+    cv_start.notify_all();
+    for (auto& t : ts) t.join();
+    ts.clear();
+  }
+};
+Workers& workers() { static Workers* w = new Workers; return *w; }
 
 ////////////////////////////////////////////////////////////////////////////////
 // value traits
@@ -461,7 +539,10 @@ struct Runner {
           op.form = 3;
         } else {
           using V = typename Tr<T>::Val;
-          if (r.chance(1, 2)) {
+          // then(C(V&)) does not compile for T = V& (ResultOfCallback instantiates run_callback<C, V&>, whose
+          // first overload is selected by IsInvocable<C, V& &&> == IsInvocable<C, V&> but then calls
+          // callback(std::move(value))): compile-time limitation of the library, noted in tools/notes/C08.md
+          if (::std::is_reference<T>::value || r.chance(1, 2)) {
             tf = f.then([wp, idx, expect, salt](const V& x) -> uint64_t {
               cb_enter(wp, idx);
               uint64_t d = Tr<T>::digest(x);
@@ -469,7 +550,7 @@ struct Runner {
               return d + salt;
             });
             op.form = 0;
-          } else {
+          } else if constexpr (!::std::is_reference<T>::value) {
             tf = f.then([wp, idx, expect, salt](V& x) -> uint64_t {
               cb_enter(wp, idx);
               uint64_t d = Tr<T>::digest(x);
@@ -548,19 +629,28 @@ struct Runner {
     vf::progress();
   }
 
+  // wait (without synchronising: relaxed loads) until the setter raised `flag`: a short yield spin so that the
+  // operation lands right next to set_value, then 30us naps so that a stalled setter is not starved of CPU
+  static void await_flag(::std::atomic<uint32_t>& flag) {
+    for (int i = 0; !flag.load(::std::memory_order_relaxed) && !stop_now(); ++i) {
+      if (i < 64) ::sched_yield();
+      else vf::raw_sleep_us(30);
+    }
+  }
+
   // program of one client thread
   static void client(World& w, Fut& master, int thread, uint64_t ep_seed, Store& store, bool latch) {
     vf::Rng r(vf::mix(ep_seed, uint64_t(thread), 0xc1));
     int nops = int(r.range(1, uint64_t(w.cfg.max_ops)));
-    for (int i = 0; i < nops && !vf::failed(); ++i) {
+    for (int i = 0; i < nops && !stop_now(); ++i) {
       // when to issue: now / as soon as set_value has been called / after it returned / after a short sleep
       switch (r.below(6)) {
         case 0: case 1: break;
         case 2: case 3:
-          while (!w.set_called.load(::std::memory_order_relaxed) && !vf::failed()) ::sched_yield();
+          await_flag(w.set_called);
           break;
         case 4:
-          while (!w.set_returned.load(::std::memory_order_relaxed) && !vf::failed()) ::sched_yield();
+          await_flag(w.set_returned);
           break;
         default: vf::raw_sleep_us(r.range(1, 300)); break;
       }
@@ -584,17 +674,17 @@ struct Runner {
       for (auto& t : s.thens) {
         VF_COUNT("obs:then_future_checked");
         if (!t.f.ready()) {
-          vf::violation("then-future-not-ready", "future returned by then() is not ready although set_value and then() both returned",
+          viol("then-future-not-ready", "future returned by then() is not ready although set_value and then() both returned",
                         w.cfg.describe());
         } else if (t.f.get() != t.expect) {
-          vf::violation("then-wrong-value", vf::fmt("future returned by then() carries %lx, expected f(value)=%lx",
+          viol("then-wrong-value", vf::fmt("future returned by then() carries %lx, expected f(value)=%lx",
                                                     (unsigned long)t.f.get(), (unsigned long)t.expect), w.cfg.describe());
         }
       }
       for (auto& t : s.void_thens) {
         VF_COUNT("obs:then_future_checked");
         if (!t.f.ready() || !t.f.wait_for(nanos(0))) {
-          vf::violation("then-future-not-ready", "Future<void> returned by then() is not ready although set_value and then() both returned",
+          viol("then-future-not-ready", "Future<void> returned by then() is not ready although set_value and then() both returned",
                         w.cfg.describe());
         }
       }
@@ -647,24 +737,24 @@ Outcome common_oracle(World& w, CalledBefore&& called_before, ReturnedBefore&& r
     uint64_t start = c.start.load(::std::memory_order_relaxed), end = c.end.load(::std::memory_order_relaxed);
     int th = c.thread.load(::std::memory_order_relaxed);
     if (runs == 0) {
-      vf::violation("callback-not-run", vf::fmt("callback registered with %s never ran although %s and the registration both returned",
+      viol("callback-not-run", vf::fmt("callback registered with %s never ran although %s and the registration both returned",
                                                 kOpNames[c.kind], setter_name), cb_str(c, int(i)) + "\n" + history(w));
       continue;
     }
     if (runs > 1) {
-      vf::violation("callback-ran-twice", vf::fmt("callback registered with %s ran %u times", kOpNames[c.kind], runs),
+      viol("callback-ran-twice", vf::fmt("callback registered with %s ran %u times", kOpNames[c.kind], runs),
                     cb_str(c, int(i)) + "\n" + history(w));
       continue;
     }
     if (!called_before(start)) {
-      vf::violation("callback-before-set_value", vf::fmt("callback started before %s was called", setter_name),
+      viol("callback-before-set_value", vf::fmt("callback started before %s was called", setter_name),
                     cb_str(c, int(i)) + "\n" + history(w));
     }
     if (c.bad.load(::std::memory_order_relaxed)) {
-      vf::violation("callback-wrong-value", "callback observed a value different from the one set", cb_str(c, int(i)) + "\n" + history(w));
+      viol("callback-wrong-value", "callback observed a value different from the one set", cb_str(c, int(i)) + "\n" + history(w));
     }
     if (end > ::std::max(last_ret, c.reg_ret)) {
-      vf::violation("callback-late", vf::fmt("callback was still running after both %s and its registration had returned", setter_name),
+      viol("callback-late", vf::fmt("callback was still running after both %s and its registration had returned", setter_name),
                     cb_str(c, int(i)) + "\n" + history(w));
     }
     int cls;
@@ -684,10 +774,10 @@ Outcome common_oracle(World& w, CalledBefore&& called_before, ReturnedBefore&& r
         case GET:
           VF_COUNT("obs:get");
           if (!called_before(o.ret)) {
-            vf::violation("get-returned-before-set_value", vf::fmt("get() returned before %s was called", setter_name),
+            viol("get-returned-before-set_value", vf::fmt("get() returned before %s was called", setter_name),
                           op_str(o, int(t)) + "\n" + history(w));
           }
-          if (!o.value_ok) vf::violation("get-wrong-value", "get() returned a value different from the one set", op_str(o, int(t)) + "\n" + history(w));
+          if (!o.value_ok) viol("get-wrong-value", "get() returned a value different from the one set", op_str(o, int(t)) + "\n" + history(w));
           if (!returned_before(o.call)) { VF_COUNT("obs:get_called_before_set_returned"); }
           break;
         case WAIT_FOR: {
@@ -695,11 +785,11 @@ Outcome common_oracle(World& w, CalledBefore&& called_before, ReturnedBefore&& r
           int64_t want = o.timeout_ns < 0 ? 0 : o.timeout_ns;
           if (o.result == 1) {
             if (!called_before(o.ret)) {
-              vf::violation("wait_for-true-before-set_value", vf::fmt("wait_for returned true before %s was called", setter_name),
+              viol("wait_for-true-before-set_value", vf::fmt("wait_for returned true before %s was called", setter_name),
                             op_str(o, int(t)) + "\n" + history(w));
             }
             if (!o.value_ok) {
-              vf::violation("get-wrong-value", "value read after wait_for==true differs from the one set", op_str(o, int(t)) + "\n" + history(w));
+              viol("get-wrong-value", "value read after wait_for==true differs from the one set", op_str(o, int(t)) + "\n" + history(w));
             }
             if (!returned_before(o.call)) VF_COUNT("obs:wait_for_true_racing");
           } else {
@@ -708,12 +798,12 @@ Outcome common_oracle(World& w, CalledBefore&& called_before, ReturnedBefore&& r
             if (o.t1_ns - o.t0_ns < want) {
               // the deadline `now + timeout` is not representable for these inputs: same root cause as the UBSan report
               bool overflow = want > INT64_MAX - o.t0_ns;
-              vf::violation(overflow ? "wait_for-deadline-overflow:false-early" : "wait_for-false-early",
+              viol(overflow ? "wait_for-deadline-overflow:false-early" : "wait_for-false-early",
                             vf::fmt("wait_for(%ldns) returned false after only %ldns", (long)o.timeout_ns, (long)(o.t1_ns - o.t0_ns)),
                             op_str(o, int(t)) + "\n" + history(w));
             }
             if (returned_before(o.call)) {
-              vf::violation("wait_for-false-after-set_value", vf::fmt("wait_for called after %s returned came back false", setter_name),
+              viol("wait_for-false-after-set_value", vf::fmt("wait_for called after %s returned came back false", setter_name),
                             op_str(o, int(t)) + "\n" + history(w));
             }
           }
@@ -728,12 +818,12 @@ Outcome common_oracle(World& w, CalledBefore&& called_before, ReturnedBefore&& r
           VF_COUNT("obs:ready");
           if (o.result == 1) {
             if (!called_before(o.ret)) {
-              vf::violation("ready-true-before-set_value", vf::fmt("ready() returned true before %s was called", setter_name),
+              viol("ready-true-before-set_value", vf::fmt("ready() returned true before %s was called", setter_name),
                             op_str(o, int(t)) + "\n" + history(w));
             }
-            if (!o.value_ok) vf::violation("get-wrong-value", "value read after ready()==true differs from the one set", op_str(o, int(t)) + "\n" + history(w));
+            if (!o.value_ok) viol("get-wrong-value", "value read after ready()==true differs from the one set", op_str(o, int(t)) + "\n" + history(w));
           } else if (returned_before(o.call)) {
-            vf::violation("ready-false-after-set_value", vf::fmt("ready() called after %s returned came back false", setter_name),
+            viol("ready-false-after-set_value", vf::fmt("ready() called after %s returned came back false", setter_name),
                           op_str(o, int(t)) + "\n" + history(w));
           }
           h = vf::mix(h, uint64_t(o.result) + 2, t);
@@ -743,7 +833,7 @@ Outcome common_oracle(World& w, CalledBefore&& called_before, ReturnedBefore&& r
     }
   }
   if (w.side_bad.load(::std::memory_order_relaxed)) {
-    vf::violation("side-payload-not-visible", "memory written by the setter before set_value was not visible to a reader after get/wait_for/callback",
+    viol("side-payload-not-visible", "memory written by the setter before set_value was not visible to a reader after get/wait_for/callback",
                   history(w));
   }
   out.fp = h;
@@ -798,9 +888,8 @@ void run_future(Cfg cfg, vf::Rng& r) {
     for (int t = 0; t < threads; ++t) masters.push_back(promise.get_future());
     ::std::vector<typename R::Store> stores(size_t(threads + 1));
     vf::watchdog().set_context(w.cfg.describe());
-    vf::pin_cpus(cfg.pin);
     vf::watchdog().arm(true);
-    vf::run_threads(threads + 1, ep_seed, [&](int t) {
+    workers().run(threads + 1, ep_seed, cfg.pin, [&](int t) {
       if (t < threads) {
         R::client(w, masters[size_t(t)], t, ep_seed, stores[size_t(t)], false);
         return;
@@ -830,24 +919,23 @@ void run_future(Cfg cfg, vf::Rng& r) {
       w.set_returned.store(1, ::std::memory_order_relaxed);
       vf::set_op(nullptr);
       vf::progress();
-      if (!promise.ready()) vf::violation("ready-false-after-set_value", "Promise::ready() false right after set_value returned", w.cfg.describe());
+      if (!promise.ready()) viol("ready-false-after-set_value", "Promise::ready() false right after set_value returned", w.cfg.describe());
     });
     vf::watchdog().arm(false);
-    vf::pin_cpus(0);
     vf::disable_policy();
-    if (!vf::failed()) {
+    if (!stop_now()) {
       // quiescent checks from the main thread (everything returned)
       auto f = promise.get_future();
       if (!f.ready() || !f.wait_for(nanos(0)) || !f.wait_for(nanos(-1))) {
-        vf::violation("ready-false-after-set_value", "ready()/wait_for(0) false after set_value returned and all threads joined", history(w));
+        viol("ready-false-after-set_value", "ready()/wait_for(0) false after set_value returned and all threads joined", history(w));
       } else if (R::read_value(f) != Tr<T>::expect(w.v)) {
-        vf::violation("get-wrong-value", "get() after join returned a value different from the one set", history(w));
+        viol("get-wrong-value", "get() after join returned a value different from the one set", history(w));
       }
       R::check_thens(w, stores);
       // waiters that incremented the futex word after READY was swapped in leave their count behind
       uint32_t word = promise._context->_futex.value().load(::std::memory_order_relaxed);
       if (word != 0x80000000U) VF_COUNT("rare:waiter_incremented_after_ready");
-      if (!(word & 0x80000000U)) vf::violation("futex-word-not-ready", vf::fmt("futex word is 0x%x after set_value returned", word), history(w));
+      if (!(word & 0x80000000U)) viol("futex-word-not-ready", vf::fmt("futex word is 0x%x after set_value returned", word), history(w));
     }
   }
   uint64_t set_call = w.set_call, set_ret = w.set_ret;
@@ -931,9 +1019,8 @@ void run_latch(Cfg cfg, vf::Rng& r) {
       w.set_returned.store(1, ::std::memory_order_relaxed);
     }
     vf::watchdog().set_context(w.cfg.describe());
-    vf::pin_cpus(cfg.pin);
     vf::watchdog().arm(true);
-    vf::run_threads(total_threads, ep_seed, [&](int t) {
+    workers().run(total_threads, ep_seed, cfg.pin, [&](int t) {
       if (t < watchers) {
         R::client(w, masters[size_t(t)], t, ep_seed, stores[size_t(t)], true);
         return;
@@ -957,14 +1044,13 @@ void run_latch(Cfg cfg, vf::Rng& r) {
       if (w.counters_left.fetch_sub(1, ::std::memory_order_relaxed) == 1) w.set_returned.store(1, ::std::memory_order_relaxed);
     });
     vf::watchdog().arm(false);
-    vf::pin_cpus(0);
     vf::disable_policy();
-    if (!vf::failed()) {
+    if (!stop_now()) {
       auto f = latch.get_future();
       if (!f.ready() || !f.wait_for(nanos(0))) {
-        vf::violation("latch-not-ready-after-last-count_down", "latch future not ready after every count_down returned (threads joined)", history(w));
+        viol("latch-not-ready-after-last-count_down", "latch future not ready after every count_down returned (threads joined)", history(w));
       } else if (f.get() != 0) {
-        vf::violation("get-wrong-value", vf::fmt("latch future carries %zu, expected 0", f.get()), history(w));
+        viol("get-wrong-value", vf::fmt("latch future carries %zu, expected 0", f.get()), history(w));
       }
       R::check_thens(w, stores);
     }
@@ -1031,11 +1117,11 @@ extern "C" void __ubsan_on_report(void) {
   World* w = g_world;
   ::std::string cfg = w ? w->cfg.describe() : ::std::string("-");
   if (op && strcmp(op, "wait_for") == 0 && arg > INT64_MAX - mono_ns()) {
-    vf::violation("wait_for-deadline-overflow:ubsan",
+    viol("wait_for-deadline-overflow:ubsan",
                   vf::fmt("UBSan report inside wait_for(%ldns): now + timeout is not representable in int64 "
                           "(FutureContext::wait_for_slow computes the deadline with a plain signed addition)", (long)arg), cfg);
   } else {
-    vf::violation(::std::string("ubsan-report-inside:") + (op ? op : "no-op"), "UBSan report while this client operation was in flight", cfg);
+    viol(::std::string("ubsan-report-inside:") + (op ? op : "no-op"), "UBSan report while this client operation was in flight", cfg);
   }
   vf::write_report();
 }
@@ -1063,19 +1149,22 @@ int main(int argc, char** argv) {
   };
   wd.start();
 
+  // `huge` episodes run last: in the asan+ubsan variant the first deadline overflow aborts the process
+  // (-fno-sanitize-recover), after the on-report hook below has written the report of everything before it.
   uint64_t n_future = 0, n_latch = 0, n_huge = 0;
   if (mode == "all") {
-    n_future = vf::budget(2600, 60000);
-    n_latch = vf::budget(700, 16000);
-    n_huge = VF_ASAN ? 0 : vf::budget(60, 1500);
-  } else if (mode == "future") n_future = vf::budget(2600, 60000);
-  else if (mode == "latch") n_latch = vf::budget(700, 16000);
-  else if (mode == "huge") n_huge = vf::budget(60, 1500);
+    n_future = vf::budget(1600, 60000);
+    n_latch = vf::budget(450, 16000);
+    n_huge = vf::budget(80, 2000);
+  } else if (mode == "future") n_future = vf::budget(1600, 60000);
+  else if (mode == "latch") n_latch = vf::budget(450, 16000);
+  else if (mode == "huge") n_huge = vf::budget(80, 2000);
   uint64_t e = 0;
   auto want = [&](uint64_t idx) { return a.only_episode < 0 || uint64_t(a.only_episode) == idx; };
-  for (uint64_t i = 0; i < n_huge && !vf::failed(); ++i, ++e) if (want(e)) future_episode(a.seed, e, true);
-  for (uint64_t i = 0; i < n_future && !vf::failed(); ++i, ++e) if (want(e)) future_episode(a.seed, e, false);
-  for (uint64_t i = 0; i < n_latch && !vf::failed(); ++i, ++e) if (want(e)) latch_episode(a.seed, e);
+  for (uint64_t i = 0; i < n_future && !stop_now(); ++i, ++e) if (want(e)) future_episode(a.seed, e, false);
+  for (uint64_t i = 0; i < n_latch && !stop_now(); ++i, ++e) if (want(e)) latch_episode(a.seed, e);
+  for (uint64_t i = 0; i < n_huge && !stop_now(); ++i, ++e) if (want(e)) future_episode(a.seed, e, true);
+  workers().shutdown();
   wd.shutdown();
   return vf::finish();
 }
